@@ -23,7 +23,7 @@ RULE = ("cases i=0..N-1 from rng(seed, 1, 0, i): 8 edge kinds (odometry r2/r3/se
 PLAN = {
     "quick": {"cases": 6000, "soft_s": 60, "min_nontrivial": 500,
               "require": ["eval:jac-vs-AD", "eval:jac-vs-FD-of-real-error", "kind:odo-se3", "kind:lm-se3-r3", "kind:lm-se2-r2", "insitu_calls_observed",
-                          "class:q:wneg", "class:q:wzero", "class:a:nearpi_in", "class:offset_rotated", "history:estimate:replace", "history:estimate:in-place", "history:vertex0:in-place",
+                          "class:q:wneg", "class:q:wzero", "class:a:nearpi_in", "class:offset_rotated", "class:far_from_origin_close_together", "history:estimate:replace", "history:estimate:in-place", "history:vertex0:in-place",
                           "history:offset:replace"]},
     "thorough": {"cases": 240000, "soft_s": 1100, "min_nontrivial": 20000,
                  "require": ["eval:jac-vs-AD", "eval:jac-vs-FD-of-real-error", "kind:odo-se3", "kind:lm-se3-r3", "kind:lm-se2-r2", "insitu_calls_observed",
@@ -47,6 +47,14 @@ def make_edge(rng, typ, k, maxexp, labels):
             if rng.random() < 0.5 and k == "se3":
                 z = z[:3] + [-x for x in z[3:]]
                 labels.add("q:zneg")
+        if rng.random() < 0.15:
+            # a pair far from the origin but close together (map coordinates such as UTM metres): the error only depends on the difference
+            nt0 = {"r2": 2, "r3": 3, "se2": 2, "se3": 3}[k]
+            shift = [float(rng.choice([-1.0, 1.0]) * 10.0 ** rng.uniform(5, 10)) for _ in range(nt0)]
+            near1, near2 = rng.normal(size=nt0) * 3.0, rng.normal(size=nt0) * 3.0
+            p1 = [sh + float(d) for sh, d in zip(shift, near1)] + p1[nt0:]
+            p2 = [sh + float(d) for sh, d in zip(shift, near2)] + p2[nt0:]
+            labels.add("far_from_origin_close_together")
         info, li = gen.info(rng, R.CD[k], 1e3)
         spec = {"type": "odo", "ids": [1, 2], "info": info.tolist(), "est": z, "est_kind": k}
         vs = [M.Vertex(1, M.mkpose(k, p1)), M.Vertex(2, M.mkpose(k, p2))]
